@@ -5,6 +5,7 @@ CONSTANTS
   Obs = "o"
   Cls = {"x"}
   Reject = {}
+  RejectSrc = {}
   SendMax = 1
   MaxChan = 2
   LidMode = "abstract"
